@@ -25,6 +25,8 @@ pub struct CfgRec {
     pub next_after_end: bool,
     pub record_writes: bool,
     pub diverge_seed: Option<u64>,
+    #[serde(default)]
+    pub stack_kib: Option<usize>,
 }
 
 impl CfgRec {
@@ -37,6 +39,7 @@ impl CfgRec {
             next_after_end: c.next_after_end,
             record_writes: c.record_writes,
             diverge_seed: c.diverge_seed,
+            stack_kib: c.stack_kib,
         }
     }
     pub fn to(&self) -> RunCfg {
@@ -48,6 +51,7 @@ impl CfgRec {
             next_after_end: self.next_after_end,
             record_writes: self.record_writes,
             diverge_seed: self.diverge_seed,
+            stack_kib: self.stack_kib,
         }
     }
 }
